@@ -2248,8 +2248,42 @@ def emit_coq(R):
 
 
 def literal_columns(prog):
-    """`columns=[...]` literals of the table constructors (Increments, body velocity)"""
+    """the `columns=` of the table constructors whose column names are written in the function itself
+    (Increments, body velocity): literal lists, names of list constants / single-assignment locals, `+`"""
     out = {}
+
+    def evaluate(node, fi, depth=0):
+        if depth > 6:
+            return None
+        if isinstance(node, (ast.List, ast.Tuple)):
+            vals = [e.value for e in node.elts if isinstance(e, ast.Constant) and isinstance(e.value, str)]
+            return vals if len(vals) == len(node.elts) else None
+        if isinstance(node, ast.BinOp) and isinstance(node.op, ast.Add):
+            l, r = evaluate(node.left, fi, depth + 1), evaluate(node.right, fi, depth + 1)
+            return l + r if l is not None and r is not None else None
+        if isinstance(node, ast.Call) and isinstance(node.func, ast.Name) and node.func.id == 'list' \
+                and len(node.args) == 1:
+            return evaluate(node.args[0], fi, depth + 1)
+        if isinstance(node, ast.Name):
+            binds = [n for n in ast.walk(fi.node) if isinstance(n, ast.Assign) and len(n.targets) == 1
+                     and isinstance(n.targets[0], ast.Name) and n.targets[0].id == node.id]
+            if len(binds) == 1:
+                return evaluate(binds[0].value, fi, depth + 1)
+            if not binds:
+                r = prog.resolve_name(fi.module, node)
+                if r and r[0] == 'const':
+                    lists = eval_const_lists(prog, r[1])
+                    if r[2] in lists:
+                        return list(lists[r[2]])
+                    return evaluate(prog.consts[r[1]][r[2]], fi, depth + 1)
+        if isinstance(node, ast.Attribute):
+            r = prog.resolve_name(fi.module, node)
+            if r and r[0] == 'const':
+                lists = eval_const_lists(prog, r[1])
+                if r[2] in lists:
+                    return list(lists[r[2]])
+        return None
+
     for fid, key in (('strapdown.compute_increments_from_imu', 'Increments'),
                      ('sim.generate_body_velocity_measurements', 'BodyVelocity')):
         fi = prog.funcs.get(fid)
@@ -2257,10 +2291,10 @@ def literal_columns(prog):
             raise Unsupported(f"schema: function {fid} not found")
         found = None
         for n in ast.walk(fi.node):
-            if isinstance(n, ast.keyword) and n.arg == 'columns' and isinstance(n.value, ast.List):
-                found = [e.value for e in n.value.elts if isinstance(e, ast.Constant)]
+            if isinstance(n, ast.keyword) and n.arg == 'columns':
+                found = evaluate(n.value, fi)
         if found is None:
-            raise Unsupported(f"schema: no literal columns=[...] in {fid}")
+            raise Unsupported(f"schema: the columns= of the table built by {fid} cannot be evaluated statically")
         out[key] = found
     return out
 
